@@ -32,6 +32,15 @@ def configs(tier):
     cfgs.append(stages.MultiTan(nimg=3, W=2))
     cfgs.append(stages.MultiWcs(nimg=2, W=2))
     cfgs.append(V(kind="generic", depth=1, W=2, quiet_messages=True, foreign_child=True))
+    # inputs read from FITS files through toasty's own collection with a blank value (the loader's buffers are
+    # pickled by the queue's feeder thread, later than the put); a reprojection function that cannot be pickled
+    cfgs.append(stages.MultiTan(nimg=3, W=2, from_files=True, max_deviations=2 if tier == "quick" else None))
+    cfgs.append(stages.MultiWcs(nimg=2, W=2, closure_reproject=True))
+    # top-down tile formats take other branches of the multi-WCS placement code
+    cfgs.append(stages.MultiWcs(nimg=2, W=2, fmt="npy"))
+    # wide item sets (16 384 leaves / 5 461 tiles), default schedule only, cut at a horizon in the quick tier
+    cfgs.append(V(kind="generic", depth=7, W=2, max_deviations=0, horizon_steps=40000 if tier == "quick" else None))
+    cfgs.append(T(depth=6, W=2, max_deviations=0, horizon_steps=40000 if tier == "quick" else None))
     # deep pyramids restricted to an apex just above the leaves
     cfgs.append(V(kind="generic", depth=10, W=2, apex=(9, 300, 7)))
     cfgs.append(V(kind="toast", depth=9, W=2, apex=(8, 5, 9)))
